@@ -1,0 +1,315 @@
+//! Verification hooks (cargo feature `verif-hooks`, off by default).
+//!
+//! Read-only views of internal values and thin wrappers around private functions, so
+//! that an external harness can drive the lexer, the parser, the checker, the graph
+//! sorter, the .yo loader and the simulator in-process and compare them with a model.
+//! Nothing in here is used by the library or the binary themselves.
+
+use std::cell::RefCell;
+use std::fmt::Write as FmtWrite;
+
+use ast::{Assignment, BinOpCode, ConstDecl, Expr, RegisterBankDecl, SpannedExpr, Statement,
+          UnOpCode, WireDecl, WireValue, WireWidth};
+use errors::Error;
+use lexer::{Lexer, Tok};
+use parser::{ExprParser, StatementsParser};
+
+pub use program::verif::*;
+pub use y86_disasm::disassemble_to_string;
+
+thread_local! {
+    /// iteration orders observed by the graph algorithms (see `program::verif::graph_sort`)
+    pub static ITERATION_LOG: RefCell<Vec<String>> = RefCell::new(Vec::new());
+}
+
+pub fn log_iteration(entry: String) {
+    ITERATION_LOG.with(|log| log.borrow_mut().push(entry));
+}
+
+pub fn take_iteration_log() -> Vec<String> {
+    ITERATION_LOG.with(|log| log.replace(Vec::new()))
+}
+
+fn width_str(w: WireWidth) -> String {
+    match w {
+        WireWidth::Bits(n) => format!("{}", n),
+        WireWidth::Unlimited => String::from("u"),
+    }
+}
+
+pub fn binop_name(op: BinOpCode) -> &'static str {
+    match op {
+        BinOpCode::Add => "add", BinOpCode::Sub => "sub", BinOpCode::Mul => "mul", BinOpCode::Div => "div",
+        BinOpCode::Or => "or", BinOpCode::Xor => "xor", BinOpCode::And => "and",
+        BinOpCode::Equal => "eq", BinOpCode::NotEqual => "ne", BinOpCode::LessEqual => "le",
+        BinOpCode::GreaterEqual => "ge", BinOpCode::Less => "lt", BinOpCode::Greater => "gt",
+        BinOpCode::LogicalAnd => "land", BinOpCode::LogicalOr => "lor",
+        BinOpCode::LeftShift => "shl", BinOpCode::RightShift => "shr", BinOpCode::Error => "error",
+    }
+}
+
+pub fn unop_name(op: UnOpCode) -> &'static str {
+    match op {
+        UnOpCode::Plus => "plus", UnOpCode::Negate => "neg", UnOpCode::Complement => "compl", UnOpCode::Not => "not",
+    }
+}
+
+/// S-expression of an expression, spans first: `(tag start end ...)`
+pub fn expr_sexp(e: &SpannedExpr, out: &mut String) {
+    let (s, t) = e.span;
+    match *e.expr {
+        Expr::Constant(v) => { write!(out, "(c {} {} {} {})", s, t, v.bits, width_str(v.width)).unwrap(); },
+        Expr::BinOp(op, ref l, ref r) => {
+            write!(out, "(b {} {} {} ", s, t, binop_name(op)).unwrap();
+            expr_sexp(l, out); out.push(' '); expr_sexp(r, out); out.push(')');
+        },
+        Expr::UnOp(op, ref inner) => {
+            write!(out, "(u {} {} {} ", s, t, unop_name(op)).unwrap();
+            expr_sexp(inner, out); out.push(')');
+        },
+        Expr::Mux(ref options) => {
+            write!(out, "(m {} {}", s, t).unwrap();
+            for option in options {
+                out.push_str(" (");
+                expr_sexp(&option.condition, out); out.push(' '); expr_sexp(&option.value, out);
+                out.push(')');
+            }
+            out.push(')');
+        },
+        Expr::NamedWire(ref name) => { write!(out, "(w {} {} {})", s, t, name).unwrap(); },
+        Expr::BitSelect { ref from, low, high } => {
+            write!(out, "(s {} {} ", s, t).unwrap();
+            expr_sexp(from, out);
+            write!(out, " {} {})", low, high).unwrap();
+        },
+        Expr::Concat(ref l, ref r) => {
+            write!(out, "(k {} {} ", s, t).unwrap();
+            expr_sexp(l, out); out.push(' '); expr_sexp(r, out); out.push(')');
+        },
+        Expr::InSet(ref l, ref items) => {
+            write!(out, "(i {} {} ", s, t).unwrap();
+            expr_sexp(l, out);
+            for item in items { out.push(' '); expr_sexp(item, out); }
+            out.push(')');
+        },
+        Expr::Error => { write!(out, "(err {} {})", s, t).unwrap(); },
+    }
+}
+
+fn const_decl_sexp(d: &ConstDecl, out: &mut String) {
+    write!(out, " ({} {} {} ", d.name, d.name_span.0, d.name_span.1).unwrap();
+    expr_sexp(&d.value, out);
+    out.push(')');
+}
+
+fn wire_decl_sexp(d: &WireDecl, out: &mut String) {
+    write!(out, " ({} {} {} {})", d.name, width_str(d.width), d.span.0, d.span.1).unwrap();
+}
+
+fn assignment_sexp(a: &Assignment, out: &mut String) {
+    write!(out, " ({} {} (", a.span.0, a.span.1).unwrap();
+    let mut first = true;
+    for &(ref name, span) in &a.names {
+        if !first { out.push(' '); }
+        first = false;
+        write!(out, "({} {} {})", name, span.0, span.1).unwrap();
+    }
+    out.push_str(") ");
+    expr_sexp(&a.value, out);
+    out.push(')');
+}
+
+fn bank_sexp(b: &RegisterBankDecl, out: &mut String) {
+    write!(out, "(bank {} {} {} {} {}", b.name, b.span.0, b.span.1, b.name_span.0, b.name_span.1).unwrap();
+    for r in &b.registers {
+        write!(out, " ({} {} {} {} ", r.name, width_str(r.width), r.span.0, r.span.1).unwrap();
+        expr_sexp(&r.default, out);
+        out.push(')');
+    }
+    out.push(')');
+}
+
+pub fn statements_sexp(statements: &Vec<Statement>) -> String {
+    let mut out = String::from("(");
+    let mut first = true;
+    for statement in statements {
+        if !first { out.push(' '); }
+        first = false;
+        match *statement {
+            Statement::ConstDecls(ref decls) => {
+                out.push_str("(const");
+                for d in decls { const_decl_sexp(d, &mut out); }
+                out.push(')');
+            },
+            Statement::WireDecls(ref decls) => {
+                out.push_str("(wire");
+                for d in decls { wire_decl_sexp(d, &mut out); }
+                out.push(')');
+            },
+            Statement::Assignments(ref assigns) => {
+                out.push_str("(assign");
+                for a in assigns { assignment_sexp(a, &mut out); }
+                out.push(')');
+            },
+            Statement::RegisterBankDecl(ref decl) => bank_sexp(decl, &mut out),
+            Statement::Error => out.push_str("(error)"),
+        }
+    }
+    out.push(')');
+    out
+}
+
+/// One lexer token in a canonical text form.
+pub fn token_str(t: &Tok) -> String {
+    match *t {
+        Tok::Constant(v) => format!("CONST:{}:{}", v.bits, width_str(v.width)),
+        Tok::Identifier(name) => format!("ID:{}", name),
+        ref other => format!("{:?}", other),
+    }
+}
+
+/// Run the lexer alone: the tokens with their spans, then either end of input or the
+/// lexical error (as an `error_summary` entry).
+pub fn lex(text: &str) -> (Vec<(usize, String, usize)>, Option<Vec<ErrorSummary>>) {
+    let mut result = Vec::new();
+    for item in Lexer::new(text) {
+        match item {
+            Ok((start, tok, end)) => result.push((start, token_str(&tok), end)),
+            Err(e) => return (result, Some(error_summary(&e))),
+        }
+    }
+    (result, None)
+}
+
+/// What the real parser makes of `text` (no preamble is added): the statement list as an
+/// S-expression, or the diagnostics.
+pub fn parse_statements(text: &str) -> Result<String, Vec<ErrorSummary>> {
+    let mut errors = Vec::new();
+    let parsed = StatementsParser::new().parse(&mut errors, Lexer::new(text));
+    let mut all: Vec<Error> = errors.into_iter().map(Error::from).collect();
+    match parsed {
+        Ok(statements) => {
+            if all.len() == 0 {
+                return Ok(statements_sexp(&statements));
+            }
+        },
+        Err(e) => all.push(Error::from(e)),
+    }
+    Err(error_summary(&Error::MultipleErrors(all)))
+}
+
+pub fn parse_expr(text: &str) -> Result<String, Vec<ErrorSummary>> {
+    let mut errors = Vec::new();
+    let parsed = ExprParser::new().parse(&mut errors, Lexer::new(text));
+    let mut all: Vec<Error> = errors.into_iter().map(Error::from).collect();
+    match parsed {
+        Ok(expr) => {
+            if all.len() == 0 {
+                let mut out = String::new();
+                expr_sexp(&expr, &mut out);
+                return Ok(out);
+            }
+        },
+        Err(e) => all.push(Error::from(e)),
+    }
+    Err(error_summary(&Error::MultipleErrors(all)))
+}
+
+/// A diagnostic reduced to what is compared: its kind, the names it mentions and the
+/// source spans it points at (in the order it shows them).
+#[derive(Debug, Clone, PartialEq, Eq, PartialOrd, Ord)]
+pub struct ErrorSummary {
+    pub kind: &'static str,
+    pub names: Vec<String>,
+    pub spans: Vec<(usize, usize)>,
+}
+
+fn summary(kind: &'static str, names: Vec<String>, spans: Vec<(usize, usize)>) -> ErrorSummary {
+    ErrorSummary { kind: kind, names: names, spans: spans }
+}
+
+pub fn error_summary(e: &Error) -> Vec<ErrorSummary> {
+    let mut out = Vec::new();
+    error_summary_into(e, &mut out);
+    out
+}
+
+fn error_summary_into(e: &Error, out: &mut Vec<ErrorSummary>) {
+    let one = match *e {
+        Error::MultipleErrors(ref v) => {
+            for item in v { error_summary_into(item, out); }
+            return;
+        },
+        Error::MismatchedMuxWidths(ref options, ref widths) => {
+            let mut spans = Vec::new();
+            for i in 0..options.len() {
+                if widths[i] != WireWidth::Unlimited { spans.push(options[i].value.span); }
+            }
+            summary("MismatchedMuxWidths", vec!(), spans)
+        },
+        Error::MismatchedExprWidths(ref a, _, ref b, _) => summary("MismatchedExprWidths", vec!(), vec!(a.span, b.span)),
+        Error::MismatchedWireWidths(ref name, _, ref e, _) => summary("MismatchedWireWidths", vec!(name.clone()), vec!(e.span)),
+        Error::MismatchedRegisterDefaultWidths { ref bank, ref register_name, ref default_expression, .. } =>
+            summary("MismatchedRegisterDefaultWidths", vec!(bank.clone(), register_name.clone()), vec!(default_expression.span)),
+        Error::DuplicateRegister { ref bank, ref register_name } =>
+            summary("DuplicateRegister", vec!(bank.clone(), register_name.clone()), vec!()),
+        Error::RuntimeMismatchedWidths() => summary("RuntimeMismatchedWidths", vec!(), vec!()),
+        Error::DivideByZero() => summary("DivideByZero", vec!(), vec!()),
+        Error::UndeclaredWireAssigned { ref name, span, .. } => summary("UndeclaredWireAssigned", vec!(name.clone()), vec!(span)),
+        Error::UndeclaredWireRead { ref name, ref expr, .. } => summary("UndeclaredWireRead", vec!(name.clone()), vec!(expr.span)),
+        Error::NonConstantWireRead(ref name, ref expr) => summary("NonConstantWireRead", vec!(name.clone()), vec!(expr.span)),
+        Error::UnsetWire(ref name, span) => summary("UnsetWire", vec!(name.clone()), vec!(span)),
+        Error::UnsetBuiltinWire(ref name) => summary("UnsetBuiltinWire", vec!(name.clone()), vec!()),
+        Error::UnsetUndeclaredWire(ref name) => summary("UnsetUndeclaredWire", vec!(name.clone()), vec!()),
+        Error::UnsetRegisterInputWire { ref name, register_span } => summary("UnsetRegisterInputWire", vec!(name.clone()), vec!(register_span)),
+        Error::RedeclaredWire(ref name, a, b) => summary("RedeclaredWire", vec!(name.clone()), vec!(a, b)),
+        Error::DoubleAssignedWire(ref name, a, b) => summary("DoubleAssignedWire", vec!(name.clone()), vec!(a, b)),
+        Error::DoubleAssignedRegisterWire { ref name, register_span, assign_span } =>
+            summary("DoubleAssignedRegisterWire", vec!(name.clone()), vec!(register_span, assign_span)),
+        Error::DoubleDeclaredRegisterOutWire { ref name, old_span, new_span } =>
+            summary("DoubleDeclaredRegisterOutWire", vec!(name.clone()), vec!(old_span, new_span)),
+        Error::DoubleAssignedFixedOutWire { ref name, span, .. } => summary("DoubleAssignedFixedOutWire", vec!(name.clone()), vec!(span)),
+        Error::AssignedConstant { ref name, span, const_span } => summary("AssignedConstant", vec!(name.clone()), vec!(span, const_span)),
+        Error::RedeclaredBuiltinWire { ref name, span, .. } => summary("RedeclaredBuiltinWire", vec!(name.clone()), vec!(span)),
+        Error::PartialFixedInput { ref found_inputs, ref missing_inputs, .. } => {
+            let mut names = found_inputs.clone();
+            names.push(String::from("/"));
+            names.extend(missing_inputs.iter().cloned());
+            summary("PartialFixedInput", names, vec!())
+        },
+        Error::WireLoop(ref names) => summary("WireLoop", names.clone(), vec!()),
+        Error::InvalidWireWidth(span) => summary("InvalidWireWidth", vec!(), vec!(span)),
+        Error::InvalidRegisterBankName(ref name, span) => summary("InvalidRegisterBankName", vec!(name.clone()), vec!(span)),
+        Error::InvalidBitIndex(ref e, _) => summary("InvalidBitIndex", vec!(), vec!(e.span)),
+        Error::NonBooleanWidth(ref e) => summary("NonBooleanWidth", vec!(), vec!(e.span)),
+        Error::NoBitWidth(ref e) => summary("NoBitWidth", vec!(), vec!(e.span)),
+        Error::MisorderedBitIndexes(ref e) => summary("MisorderedBitIndexes", vec!(), vec!(e.span)),
+        Error::InvalidConstant(span) => summary("InvalidConstant", vec!(), vec!(span)),
+        Error::WireTooWide(ref e) => summary("WireTooWide", vec!(), vec!(e.span)),
+        Error::ExpectedStatementFoundExpr(ref e) => summary("ExpectedStatementFoundExpr", vec!(), vec!(e.span)),
+        Error::UnterminatedComment(loc) => summary("UnterminatedComment", vec!(), vec!((loc, loc + 2))),
+        Error::LexicalError(loc) => summary("LexicalError", vec!(), vec!((loc, loc.wrapping_add(1)))),
+        Error::InternalParserErrorNear(span, ref info) => summary("InternalParserErrorNear", vec!(info.clone()), vec!(span)),
+        Error::MissingWireWidth(span) => summary("MissingWireWidth", vec!(), vec!(span)),
+        Error::WireAssignedInDeclaration(span) => summary("WireAssignedInDeclaration", vec!(), vec!(span)),
+        Error::MissingRegisterWidth(span) => summary("MissingRegisterWidth", vec!(), vec!(span)),
+        Error::AddedConstWidth(span) => summary("AddedConstWidth", vec!(), vec!(span)),
+        Error::MissingAssignmentMux(span) => summary("MissingAssignmentMux", vec!(), vec!(span)),
+        Error::RegisterDeclaredWithWire(span) => summary("RegisterDeclaredWithWire", vec!(), vec!(span)),
+        Error::NoMuxDefaultOption(ref e) => summary("NoMuxDefaultOption", vec!(), vec!(e.span)),
+        Error::MultipleMuxDefaultOption(ref e) => summary("MultipleMuxDefaultOption", vec!(), vec!(e.span)),
+        Error::UnreachableOptions(ref e) => summary("UnreachableOptions", vec!(), vec!(e.span)),
+        Error::EmptyFile() => summary("EmptyFile", vec!(), vec!()),
+        Error::UnparseableLine(ref line) => summary("UnparseableLine", vec!(line.clone()), vec!()),
+        Error::InvalidToken(loc) => summary("InvalidToken", vec!(), vec!((loc, loc.wrapping_add(1)))),
+        Error::UnrecognizedToken { location, .. } => summary("UnrecognizedToken", vec!(), vec!(location)),
+        Error::ExtraToken(span) => summary("ExtraToken", vec!(), vec!(span)),
+        Error::IoError(_) => summary("IoError", vec!(), vec!()),
+        Error::FmtError(_) => summary("FmtError", vec!(), vec!()),
+    };
+    out.push(one);
+}
+
+pub fn wire_value_parts(v: &WireValue) -> (u128, Option<u8>) {
+    (v.bits, match v.width { WireWidth::Bits(n) => Some(n), WireWidth::Unlimited => None })
+}
